@@ -281,6 +281,73 @@ def r042(report, lm, pm, rid='R04.2'):
     return rule
 
 
+def delivery(rule, lm, methods, functions, modes):
+    # ... and the semicolon reaches the parser before the next real token,
+    # with the comment still delivered (Lexer.token evaluated on the raw
+    # stream, only the raw token source is a stand-in)
+    tokfn = methods.get('token')
+    if tokfn is None:
+        raise AnalysisError('Lexer.token vanished')
+    for kw in sorted(RESTRICTED_PREFIX):
+        for run, label in (
+                ((('LINE_TERMINATOR', '\n'),), 'line break'),
+                ((('BLOCK_COMMENT', '/*\n*/'),), 'multi-line comment'),
+                ((('BLOCK_COMMENT', '/*c*/'), ('LINE_TERMINATOR', '\n')),
+                 'comment, line break'),
+                ((('LINE_COMMENT', '//c'), ('LINE_TERMINATOR', '\n'),
+                  ('LINE_TERMINATOR', '\n')), 'line comment, two breaks')):
+            for yc, wc in modes:
+                raw = [tok(kw)] + [tok(*x) for x in run] + [
+                    tok('ID', 'x'), None]
+                it = iter(raw)
+                lexer = mk_lexer_obj(lm=lm)
+                lexer.yield_comments = yc
+                # comment capture (the parser's with_comments): the
+                # comments are kept aside, the token sequence is the same
+                lexer.with_comments = wc
+                lexer.lexer = Obj('PlyLexer', lexdata='ab', lexpos=0,
+                                  begin=('pyfunc', lambda state: None))
+                lexer.get_lexer_token = ('pyfunc', lambda it=it, lexer=lexer:
+                                         hand(lexer, next(it)))
+                got = []
+                try:
+                    for _ in range(8):
+                        ev = Evaluator(lm.module, 'Lexer', methods,
+                                       functions)
+                        ret, _ys = ev.call(tokfn, [], self_obj=lexer)
+                        if ret is None:
+                            break
+                        got.append(ret.type)
+                except Raised as e:
+                    got.append('raises %s' % e.text)
+                want = [kw] + ([x[0] for x in run if x[0] != 'LINE_TERMINATOR']
+                               if yc else [])
+                # the semicolon comes with the first line break: after a
+                # comment that contains it, in place of a line terminator
+                want_yc = [kw]
+                placed = False
+                for x in run:
+                    is_lt = x[0] == 'LINE_TERMINATOR' or '\n' in x[1]
+                    if x[0] != 'LINE_TERMINATOR' and yc:
+                        want_yc.append(x[0])
+                    if is_lt and not placed:
+                        want_yc.append('AUTOSEMI')
+                        placed = True
+                want_yc.append('ID')
+                rule.check(got == want_yc,
+                           'delivery %s %s%s' % (
+                               kw, label, ' (comments yielded)' if yc
+                               else ' (comments captured)' if wc else ''),
+                           'Lexer.token() on %s %s ID%s' % (
+                               kw, ' '.join(x[0] for x in run),
+                               ', comments yielded' if yc else
+                               ', comments captured' if wc else ''),
+                           'the parser receives %r, expected %r' % (
+                               got, want_yc),
+                           where='lexers/es5.py:Lexer._token / '
+                           '_get_update_token')
+
+
 def r043(report, g, lm):
     rule = report.rule('R04.3', 'restricted productions: AUTOSEMI exactly '
                        'after continue/break/return/throw + line break',
@@ -461,70 +528,8 @@ def r043(report, g, lm):
                       autos, want, [i[0] for i in items[:6]]),
                   where='lexers/es5.py:Lexer._get_update_token',
                   witness=c)
-    # ... and the semicolon reaches the parser before the next real token,
-    # with the comment still delivered (Lexer.token evaluated on the raw
-    # stream, only the raw token source is a stand-in)
-    tokfn = methods.get('token')
-    if tokfn is None:
-        raise AnalysisError('Lexer.token vanished')
-    for kw in sorted(RESTRICTED_PREFIX):
-        for run, label in (
-                ((('LINE_TERMINATOR', '\n'),), 'line break'),
-                ((('BLOCK_COMMENT', '/*\n*/'),), 'multi-line comment'),
-                ((('BLOCK_COMMENT', '/*c*/'), ('LINE_TERMINATOR', '\n')),
-                 'comment, line break'),
-                ((('LINE_COMMENT', '//c'), ('LINE_TERMINATOR', '\n'),
-                  ('LINE_TERMINATOR', '\n')), 'line comment, two breaks')):
-            for yc, wc in ((False, False), (True, False), (False, True)):
-                raw = [tok(kw)] + [tok(*x) for x in run] + [
-                    tok('ID', 'x'), None]
-                it = iter(raw)
-                lexer = mk_lexer_obj(lm=lm)
-                lexer.yield_comments = yc
-                # comment capture (the parser's with_comments): the
-                # comments are kept aside, the token sequence is the same
-                lexer.with_comments = wc
-                lexer.lexer = Obj('PlyLexer', lexdata='ab', lexpos=0,
-                                  begin=('pyfunc', lambda state: None))
-                lexer.get_lexer_token = ('pyfunc', lambda it=it, lexer=lexer:
-                                         hand(lexer, next(it)))
-                got = []
-                try:
-                    for _ in range(8):
-                        ev = Evaluator(lm.module, 'Lexer', methods,
-                                       functions)
-                        ret, _ys = ev.call(tokfn, [], self_obj=lexer)
-                        if ret is None:
-                            break
-                        got.append(ret.type)
-                except Raised as e:
-                    got.append('raises %s' % e.text)
-                want = [kw] + ([x[0] for x in run if x[0] != 'LINE_TERMINATOR']
-                               if yc else [])
-                # the semicolon comes with the first line break: after a
-                # comment that contains it, in place of a line terminator
-                want_yc = [kw]
-                placed = False
-                for x in run:
-                    is_lt = x[0] == 'LINE_TERMINATOR' or '\n' in x[1]
-                    if x[0] != 'LINE_TERMINATOR' and yc:
-                        want_yc.append(x[0])
-                    if is_lt and not placed:
-                        want_yc.append('AUTOSEMI')
-                        placed = True
-                want_yc.append('ID')
-                rule.check(got == want_yc,
-                           'delivery %s %s%s' % (
-                               kw, label, ' (comments yielded)' if yc
-                               else ' (comments captured)' if wc else ''),
-                           'Lexer.token() on %s %s ID%s' % (
-                               kw, ' '.join(x[0] for x in run),
-                               ', comments yielded' if yc else
-                               ', comments captured' if wc else ''),
-                           'the parser receives %r, expected %r' % (
-                               got, want_yc),
-                           where='lexers/es5.py:Lexer._token / '
-                           '_get_update_token')
+    delivery(rule, lm, methods, functions,
+             ((False, False), (True, False), (False, True)))
     # the grammar must accept the inserted token right after the keyword
     by = {}
     for p in g.productions:
